@@ -751,6 +751,151 @@ pub fn gen_crash_resume(seed: u64, thorough: bool, o: &mut Out) -> Vec<String> {
     q
 }
 
+/// lengths of the mutating operations of every script op (0 = erase), from a reference run
+pub fn op_lens(s: &Script) -> Vec<Vec<usize>> {
+    let mut lines = s.head();
+    lines.extend(s.ops.clone());
+    let ans = reference(&lines);
+    let base = s.head().len();
+    let mut out = vec![];
+    for (j, _) in s.ops.iter().enumerate() {
+        let a = &ans[base + j];
+        let opsf = a.split(" ; ").find(|p| p.starts_with("ops=")).map(|p| &p[4..]).unwrap_or("-");
+        let mut v = vec![];
+        if opsf != "-" {
+            for op in opsf.split(',') {
+                if op.starts_with('E') {
+                    v.push(0);
+                } else {
+                    let d = op.split(':').nth(1).unwrap_or("");
+                    v.push(match d.split_once('#') {
+                        Some((l, _)) => l.parse().unwrap_or(1),
+                        None => d.len() / 2,
+                    });
+                }
+            }
+        }
+        out.push(v);
+    }
+    out
+}
+
+/// G5t (C04): power loss INSIDE a program operation of a fragment's handling (a prefix of the bytes, then one byte with
+/// only a subset of its bits cleared), reboot, recovery, the interrupted fragment again, the rest of the transmission,
+/// a full pass of the data, the final check. The losses lie inside image bytes 4..68, which the CRC does not cover, so
+/// a wrongly rebuilt fragment is not caught by validation: a successful final check must leave exactly the image.
+pub fn gen_torn_resume(seed: u64, thorough: bool, o: &mut Out) -> Vec<String> {
+    let mut rng = Rng::new(seed ^ 0x7047);
+    let mut q = vec![];
+    let nscn = if thorough { 16 } else { 3 };
+    for it in 0..nscn {
+        let sz = *rng.pick(&[4usize, 8, 16]);
+        let geo = Geo { nslots: *rng.pick(&[4usize, 5, 6]), slot: 20480, block: 4096 };
+        let n = 68 / sz + rng.range(3, 9) as usize;
+        let inside: Vec<usize> = (0..n).filter(|i| i * sz >= 4 && (i + 1) * sz <= 68).collect();
+        let mut lost = inside.clone();
+        rng.shuffle(&mut lost);
+        lost.truncate(rng.range(2, 5).min(lost.len() as u64) as usize);
+        lost.sort();
+        let img = Img::make(&mut rng, sz, n);
+        let mut ops = vec![format!("start {} {}", sz, n)];
+        for i in 1..=n as u32 {
+            if !lost.contains(&(i as usize - 1)) {
+                ops.push(format!("seg {} {}", i, hex(&img.fragment(i))));
+            }
+        }
+        let first_coded = ops.len();
+        // coded fragments; prefer (first) those that cover only some of the lost fragments (rows with zero bits below the pivot)
+        let mut ks: Vec<u32> = (1..=(lost.len() as u32 + 8)).collect();
+        ks.sort_by_key(|k| {
+            let row = crate::rows::parity_row(*k, n, crate::rows::ffr());
+            match row {
+                Some(r) => {
+                    let c = lost.iter().filter(|i| r[**i]).count();
+                    if c > 0 && c < lost.len() { 0 } else { 1 }
+                }
+                None => 2,
+            }
+        });
+        for k in &ks {
+            if crate::rows::parity_row(*k, n, crate::rows::ffr()).is_some() {
+                ops.push(format!("seg {} {}", n as u32 + k, hex(&img.fragment(n as u32 + k))));
+            }
+        }
+        ops.push("check".into());
+        let s = Script { geo, pre: if it % 2 == 1 { vec![] } else { vec![] }, img, ops };
+        let lens = op_lens(&s);
+        let sites = op_sites(&s);
+        let mut points: Vec<(usize, usize, usize, u8)> = vec![];
+        for j in 1..s.ops.len() - 1 {
+            for (k, len) in lens[j].iter().enumerate() {
+                if *len == 0 {
+                    continue;
+                }
+                let stage2 = j >= first_coded;
+                let mut prefixes = vec![0usize, len - 1];
+                if *len > 2 {
+                    prefixes.push(rng.range(1, *len as u64 - 2) as usize);
+                }
+                prefixes.sort();
+                prefixes.dedup();
+                for p in prefixes {
+                    let mut keeps: Vec<u8> = vec![0xFF, rng.next() as u8];
+                    if stage2 || rng.chance(1, 6) {
+                        keeps.extend((0..8).map(|b| 1u8 << b));
+                        keeps.extend((0..3).map(|_| rng.next() as u8));
+                    }
+                    for keep in keeps {
+                        points.push((j, k, p, keep));
+                    }
+                }
+            }
+        }
+        let maxp = if thorough { 1200 } else { 260 };
+        if points.len() > maxp {
+            // keep all points of the coded fragments first
+            let mut a: Vec<_> = points.iter().cloned().filter(|p| p.0 >= first_coded).collect();
+            let mut b: Vec<_> = points.iter().cloned().filter(|p| p.0 < first_coded).collect();
+            rng.shuffle(&mut a);
+            rng.shuffle(&mut b);
+            a.truncate(maxp * 4 / 5);
+            b.truncate(maxp - a.len());
+            a.extend(b);
+            points = a;
+        }
+        for (j, k, p, keep) in points {
+            q.extend(s.head());
+            for op in &s.ops[..j] {
+                q.push(op.clone());
+            }
+            q.push(format!("crash {} {} {}", k, p, keep));
+            q.push(s.ops[j].clone());
+            q.push("reboot".into());
+            // site class of the torn program; for a matrix row, whether the tear lies in its last byte (the byte that
+            // holds the inverted diagonal bit = the "row present" marker) or in an earlier byte
+            let site = sites[j][k];
+            let resend = site == "finish" || rng.chance(3, 4);
+            let key = format!(
+                "torn-site={}{}{}",
+                site,
+                if site == "row" { if p + 1 == lens[j][k] { "-diagonal-byte" } else { "-earlier-byte" } } else { "" },
+                if resend { "" } else { "-lost" }
+            );
+            q.push(format!("variant C04 {}", key));
+            q.push("recover".into());
+            for op in &s.ops[(if resend { j } else { j + 1 })..s.ops.len() - 1] {
+                q.push(op.clone());
+            }
+            q.extend(s.full_pass());
+            q.push("check".into());
+            q.push("sweep".into());
+            q.push("dump".into());
+            o.stat(if j >= first_coded { "torn-in-coded-fragment" } else { "torn-in-data-fragment" });
+        }
+    }
+    q
+}
+
 /// G6 (C18, flash level): one transient SpiFlash write/erase fault at each mutating-op index of a fragment, redelivery
 pub fn gen_flash_faults(seed: u64, thorough: bool, o: &mut Out) -> Vec<String> {
     let mut rng = Rng::new(seed ^ 0x18);
